@@ -85,7 +85,7 @@ def run(ctx):
         sub = dbdir / "chain"; sub.mkdir()
         tr, info = zc.run_chaindrv(ctx, cdrv, "c01", ctx.seed, 30 if quick else 120, sub, extra=["-followers", "pebble", "-trimdepth", 4, "-chained", 6])
         for pr in info.get("problems") or []:
-            if pr["kind"] in ("accepted-block-spends-missing-output", "spent-output-still-present", "own-block-rejected", "follower-rejects-block", "follower-state-differs"):
+            if pr["kind"] in ("accepted-block-spends-missing-output", "accepted-block-spends-output-twice", "spent-output-still-present", "own-block-rejected", "follower-rejects-block", "follower-state-differs"):
                 vlib.report(ctx, {"kind": pr["kind"]}, {"seed": ctx.seed, "problem": pr})
         ok, mm, t = zc.validate_trace(ctx, "c01", tr)
         if not ok and mm["what"] in ("SpentAtMostOnce", "AcceptedBlocksValid", "utxo"):
